@@ -82,4 +82,20 @@ example : ((applyBatches (sys envEx) Book.init
     ((run (sys envEx) St.init histMove).sent ++ [(run (sys envEx) St.init histMove).queue])).w.sheets.map
       fun s => ((s.rowAt 2).hidden, (s.rowAt 4).height)) = [(true, 40)] := by decide
 
+/-- the column twin: column 2 moved by 1 skips hidden column 3 (effective delta 2) -/
+def histMoveCols : List (Cmd User.Op) :=
+  [.op (.setColumnsWidth 0 2 2 40), .op (.setColumnsHidden 0 3 3 true), .op (.moveColumns 0 2 1 1),
+   .flush, .undo, .redo]
+
+def recordedColDelta : List Diff → Option Int
+  | [.moveColumns _ _ _ d] => some d
+  | _ => none
+
+example : allDomB envEx St.init histMoveCols = true := by decide
+example : ((run (sys envEx) St.init histMoveCols).undo.head?.bind recordedColDelta) = some 2 := by
+  decide
+example : ((applyBatches (sys envEx) Book.init
+    ((run (sys envEx) St.init histMoveCols).sent ++ [(run (sys envEx) St.init histMoveCols).queue])).w.sheets.map
+      fun s => ((s.colAt 2).hidden, (s.colAt 4).width)) = [(true, 40)] := by decide
+
 end IronCalc.User.C03
